@@ -758,7 +758,7 @@ func (x *Xlat) nnArgs(st *State, out *Outcomes, fi *FuncInfo, args []Arg, pos to
 	}
 	ps := x.paramVars(fi)
 	for i, p := range ps {
-		if i < len(args) && args[i].v != nil && args[i].v.Sort == SRef && p != nil && isPtrToStruct(p.Type()) {
+		if i < len(args) && args[i].v != nil && args[i].v.Sort == SRef && p != nil && (isPtrToStruct(p.Type()) || isMapType(p.Type())) {
 			x.safety(st, out, "nilarg", Not(Eq(args[i].v, TNull)), pos, fmt.Sprintf("nil passed for parameter %s of %s", p.Name(), fi.Key))
 		}
 	}
